@@ -32,15 +32,17 @@ RULE = (
     "reading (byte aligned with a size not in {1,2,4,8}, or not aligned with neither neighbouring size supported). A case "
     "counts as distinct non-trivial when no earlier part of the enumeration produced the same coordinates (sweep values that "
     "are background values of an earlier sweep, product members containing a background word, walk values that are edge "
-    "values are counted as trivial)."
+    "values are counted as trivial). The corpora of the unit registry (Service1Tm, FailureNotice, RequestId, PacketFieldEnum - the "
+    "packets C04/C09/C10 start from) are run through build/pack/decode against their reference octets as well."
 )
 BOUNDS = {
-    "quick": "K=4 (16 backgrounds per swept word); product edge(16) x edge(16); neighbour bases walk(32) + edge(16)^2 (134 x 32); "
+    "quick": "K=4 (16 backgrounds per swept word); product edge(16) x edge(16); neighbour bases walk(32) + edge(16)^2 (120 bases x 32 bits); "
              "service-1: edge(8w) values (8 per width), failure data {0,1,3,200}, 16 TC headers (diagonals of edge(11) x edge(14) x "
              "version {0,5}); PacketFieldEnum 32/64 bit per octet x K=4; pfc in [-64, 300]",
-    "thorough": "K=8 (64 backgrounds per swept word); product walk(16) x walk(16); neighbour bases walk(32) + walk(16)^2 (1514 x 32); "
-                "service-1: edge values x all 128 TC headers (edge(11) x edge(14) x {0,5}) x failure data {0,1,2,3,8,200,1000}, plus "
-                "walk(8w) step values x edge error codes and edge step values x walk(8w) error codes over the 16 diagonal headers; "
+    "thorough": "K=8 (64 backgrounds per swept word); product walk(16) x walk(16); neighbour bases walk(32) + walk(16)^2 (1296 bases x 32 bits); "
+                "service-1: edge values x all 128 TC headers (edge(11) x edge(14) x {0,5}) x failure data {0,1,3,200}, failure data {2,8,1000} over the "
+                "16 diagonal headers, plus walk(8w) step values x edge error codes and edge step values x walk(8w) error codes over 4 headers "
+                "x failure data {0,3}; "
                 "PacketFieldEnum 32/64 bit per 16-bit half-word x K=8; pfc in [-4096, 4096] and +-2^k, k <= 70",
 }
 ASSUMPTIONS = [
@@ -165,27 +167,31 @@ def check_rid(rec: Rec, w0, w1, dl, other, nontrivial=True):
     routes = RID_ROUTES if typ == 1 else RID_ROUTES[:4]
     rec.case(nontrivial, ops=6 * len(routes) + 4)
     feat = "/ver!=0" if ver else ""
-    if u32 & 0x0F0F0F0F == 0x01020408:
+    if u32 % 8191 == 5 and ver:
         rec.sample({"request_id_fields": dict(zip(RID_FIELDS, (ver, typ, shf, apid, fl, cnt))), "expected_octets": ref4.hex(), "expected_u32": u32,
                     "routes": list(routes), "must_differ_from": "%08x" % other}, limit=1)
 
-    def bad(kind, observed=None, expected=None):
-        rec.violation("C15." + kind + feat, case, observed, expected, repro=rid_repro(w0, w1))
+    def bad(kind, observed=None, expected=None, feature=""):
+        rec.violation("C15." + kind + feature, case, observed, expected, repro=rid_repro(w0, w1))
 
     exp = (ref4, u32, ver, typ, shf, apid, fl, cnt, w0 & 0x1FFF, w1)
-    objs = []
+    objs, fails = [], []
     for route in routes:
         try:
             r = build_rid(route, w0, w1, dl)
             obs = observe_rid(r)
         except Exception as e:
-            bad("reqid/RequestId.%s/exception/%s" % (route, type(e).__name__), repr(e), ref4)
+            fails.append((route, "exception/" + type(e).__name__, repr(e)))
             continue
         if obs != exp:
-            name = next(n for n, a, b in zip(RID_OBS, obs, exp) if a != b)
-            bad("reqid/RequestId.%s/%s" % (route, name), obs, exp)
+            fails.append((route, next(n for n, a, b in zip(RID_OBS, obs, exp) if a != b), obs))
             continue
         objs.append((route, r))
+    if len(fails) == len(routes) and len(set(f[1] for f in fails)) == 1:  # every route fails the same way: one defect site, one signature
+        bad("reqid/RequestId/" + fails[0][1], {"routes": "all", "observed": fails[0][2]}, exp, feat)
+    else:
+        for route, what, obs in fails:
+            bad("reqid/RequestId.%s/%s" % (route, what), obs, exp, feat)
     if not objs:
         return
     r0name, r0 = objs[0]
@@ -278,8 +284,12 @@ def tc_headers(tier):
     return out
 
 
+BASE_DATA_LENS = [0, 1, 3, 200]
+EXTRA_DATA_LENS = [2, 8, 1000]  # thorough only, over the 16 diagonal headers
+
+
 def data_lens(tier):
-    return [0, 1, 3, 200] if tier == "quick" else [0, 1, 3, 200, 2, 8, 1000]
+    return BASE_DATA_LENS if tier == "quick" else BASE_DATA_LENS + EXTRA_DATA_LENS
 
 
 def tm_diag(i):
@@ -301,6 +311,7 @@ def build_tc(tc):
     raise AssertionError(route)
 
 
+DECODERS = ("Service1Tm.unpack", "Service1Tm.from_tm")
 S1_OBS = ("service", "subservice", "tc_req_id.pack", "tc_req_id.as_u32", "step_id", "error_code", "failure_notice", "source_data", "timestamp",
           "has_failure_notice", "is_step_reply", "apid", "seq_count", "packet_version", "time_ref", "dest_id")
 
@@ -433,7 +444,8 @@ def check_s1(rec: Rec, c, nontrivial=True):
     # ---- decode with matching widths, two entry points
     params = s1.UnpackParams(T, c["usw"], c["uew"])
     assert (not step or c["usw"] == sw) and (not fail or c["uew"] == ew)
-    for dname in ("Service1Tm.unpack", "Service1Tm.from_tm"):
+    found = []  # (decoder, signature tail, observed, expected)
+    for dname in DECODERS:
         try:
             if dname == "Service1Tm.unpack":
                 u = s1.Service1Tm.unpack(ref, params)
@@ -441,18 +453,18 @@ def check_s1(rec: Rec, c, nontrivial=True):
                 u = s1.Service1Tm.from_tm(L.PusTm.unpack(ref, T), params)
             obs = observe_s1(u)
         except Exception as e:
-            bad("%s/exception/%s" % (dname, type(e).__name__), repr(e))
+            found.append((dname, "decode/exception/" + type(e).__name__, repr(e), None))
             continue
         if obs != exp:
-            name = next(n for n, a, b in zip(S1_OBS, obs, exp) if a != b)
-            bad("%s/field=%s" % (dname, name), obs, exp)
+            found.append((dname, "decode/field=" + next(n for n, a, b in zip(S1_OBS, obs, exp) if a != b), obs, exp))
             continue
         try:
             if not (u.tc_req_id == rid and rid == u.tc_req_id) or hash(u.tc_req_id) != hash(rid):
-                bad("decoded/request-id-not-equal-original")
+                found.append((dname, "decoded/request-id-not-equal-or-hashes-unlike-the-original",
+                              {"==": u.tc_req_id == rid, "hashes": [hash(u.tc_req_id), hash(rid)]}, "equal, equal hashes"))
             re = bytes(u.pack())
             if re != ref:
-                bad("inverse/unpack-then-pack/octets/" + s1_region(re, ref, T, sw, ew), short(re), short(ref))
+                found.append((dname, "inverse/unpack-then-pack/octets/" + s1_region(re, ref, T, sw, ew), short(re), short(ref)))
             if not (u == tm and tm == u):
                 differs = []
                 if not (u.pus_tm == tm.pus_tm):
@@ -463,12 +475,20 @@ def check_s1(rec: Rec, c, nontrivial=True):
                     differs.append("step_id")
                 if not (u._verif_params.failure_notice == tm._verif_params.failure_notice):
                     differs.append("failure_notice")
-                bad("inverse/decoded-not-equal-original/differs=" + ("+".join(differs) or "unknown"),
-                    {"decoder": dname, "decoded == original": u == tm, "original == decoded": tm == u, "all decoded fields equal by value": True},
-                    "decoded report == original (both directions)")
+                found.append((dname, "inverse/decoded-not-equal-original/differs=" + ("+".join(differs) or "unknown"),
+                              {"decoded == original": u == tm, "original == decoded": tm == u, "all decoded fields equal by value": True},
+                              "decoded report == original (both directions)"))
             rec.outcome("s1-roundtrip/%s/sub%d/equal=%s" % (dname, sub, u == tm))
         except Exception as e:
-            bad("inverse/exception/" + type(e).__name__, repr(e))
+            found.append((dname, "inverse/exception/" + type(e).__name__, repr(e), None))
+    # both entry points share the parsing code: the same failure through both is one defect site -> one signature
+    tails = D.dedupe([f[1] for f in found])
+    for tail in tails:
+        who = [f for f in found if f[1] == tail]
+        if len(who) == len(DECODERS):
+            bad(tail, {"decoders": list(DECODERS), "observed": who[0][2]}, who[0][3])
+        else:
+            bad(tail + "/only-through=" + who[0][0], who[0][2], who[0][3])
 
 
 # ---------------------------------------------------------------------------------- refusal
@@ -673,17 +693,20 @@ def neigh_bases(tier):
     return D.dedupe(D.walk(32) + [hi << 16 | lo for hi in al for lo in al])
 
 
-def s1_value_sets(tier, sw, ew):
-    """list of (step values, error code values, header count, is_walk_part) for one width combination"""
+def s1_parts(tier, sw, ew):
+    """the parts of the service-1 enumeration for one width combination:
+    (step values, error code values, number of TC headers (None = all), failure data lengths)"""
     es = D.edge(8 * sw) if sw else [None]
     ee = D.edge(8 * ew) if ew else [None]
-    sets = [(es, ee, None, False)]
+    parts = [(es, ee, None, BASE_DATA_LENS)]
     if tier == "thorough":
-        if sw:
-            sets.append(([v for v in D.walk(8 * sw) if v not in es], ee, 16, True))
         if ew:
-            sets.append((es, [v for v in D.walk(8 * ew) if v not in ee], 16, True))
-    return sets
+            parts.append((es, ee, 16, EXTRA_DATA_LENS))
+        if sw:  # every bit of the step ID in both polarities; walk values that are edge values were produced by the first part
+            parts.append(([v for v in D.walk(8 * sw) if v not in es], ee, 4, [0, 3]))
+        if ew:
+            parts.append((es, [v for v in D.walk(8 * ew) if v not in ee], 4, [0, 3]))
+    return parts
 
 
 def shards(tier):
@@ -693,16 +716,18 @@ def shards(tier):
     for word in range(2):
         for p in range(parts):
             items.append({"kind": "sweep", "word": word, "lo": 65536 * p // parts, "hi": 65536 * (p + 1) // parts, "k": k})
+    hp = 1 if tier == "quick" else 4
     for sw in WIDTHS:  # sub 6: step-failure, the heaviest
         for ew in WIDTHS:
-            items.append({"kind": "s1", "sub": 6, "sw": sw, "ew": ew, "tier": tier})
+            for h in range(hp):
+                items.append({"kind": "s1", "sub": 6, "sw": sw, "ew": ew, "tier": tier, "hpart": h, "hparts": hp})
     for sub in (2, 4, 8):
         for ew in WIDTHS:
-            items.append({"kind": "s1", "sub": sub, "sw": 0, "ew": ew, "tier": tier})
+            items.append({"kind": "s1", "sub": sub, "sw": 0, "ew": ew, "tier": tier, "hpart": 0, "hparts": 1})
     for sw in WIDTHS:
-        items.append({"kind": "s1", "sub": 5, "sw": sw, "ew": 0, "tier": tier})
+        items.append({"kind": "s1", "sub": 5, "sw": sw, "ew": 0, "tier": tier, "hpart": 0, "hparts": 1})
     for sub in (1, 3, 7):
-        items.append({"kind": "s1", "sub": sub, "sw": 0, "ew": 0, "tier": tier})
+        items.append({"kind": "s1", "sub": sub, "sw": 0, "ew": 0, "tier": tier, "hpart": 0, "hparts": 1})
     items.append({"kind": "product", "tier": tier, "k": k})
     bases = neigh_bases(tier)
     for chunk in D.chunks(list(range(len(bases))), 2 if tier == "quick" else 8):
@@ -732,20 +757,21 @@ def s1_cases(item):
     tier, sub, sw, ew = item["tier"], item["sub"], item["sw"], item["ew"]
     hdrs = tc_headers(tier)
     n = 0
-    for svals, evals, nh, walk_part in s1_value_sets(tier, sw, ew):
+    for svals, evals, nh, dls in s1_parts(tier, sw, ew):
         for hi, tc in enumerate(hdrs[:nh] if nh else hdrs):
+            if hi % item["hparts"] != item["hpart"]:
+                continue
             for T in (0, 7):
-                for dl in (data_lens(tier) if ew else [None]):
+                for dl in (dls if ew else [None]):
                     for sv in svals:
                         for ev in evals:
                             for route in ("helper", "ctor"):
                                 n += 1
                                 i = n + hi
-                                c = {"sub": sub, "route": route, "tc": tc, "step": [sv, sw] if sw else None,
-                                     "fail": [[ev, ew], [dl, (n + hi) % 251]] if ew else None, "tslen": T,
-                                     "usw": sw or WIDTHS[i % 4], "uew": ew or WIDTHS[(i // 4) % 4],
-                                     "tm": tm_diag(i) if route == "ctor" else [E11[i % 8], 0, 0, 0, 0]}
-                                yield c
+                                yield {"sub": sub, "route": route, "tc": tc, "step": [sv, sw] if sw else None,
+                                       "fail": [[ev, ew], [dl, i % 251]] if ew else None, "tslen": T,
+                                       "usw": sw or WIDTHS[i % 4], "uew": ew or WIDTHS[(i // 4) % 4],
+                                       "tm": tm_diag(i) if route == "ctor" else [E11[i % 8], 0, 0, 0, 0]}
 
 
 def run_shard(item):
@@ -763,6 +789,10 @@ def run_shard(item):
                     other = (v2 << 16 | a) if word == 0 else (a << 16 | v2)
                     check_rid(rec, w0, w1, dl, other, nontrivial=not (word == 1 and v in bgset))
         rec.count("rid_word%d_values_swept" % word, item["hi"] - item["lo"])
+        sw0, sw1 = (item["lo"] | 0x2000, bg[2]) if word == 0 else (bg[2] | 0xA000, item["lo"])
+        rec.sample({"request_id_sweep": {"word": word, "values": [item["lo"], item["hi"] - 1], "backgrounds_other_word_and_length_field": bg},
+                    "example": {"fields": dict(zip(RID_FIELDS, rid_fields(sw0, sw1))), "expected_octets": RP.request_id(*rid_fields(sw0, sw1)).hex(),
+                                "expected_u32": sw0 << 16 | sw1, "routes": list(RID_ROUTES)}}, limit=1)
     elif kind == "product":
         al = D.edge(16) if item["tier"] == "quick" else D.walk(16)
         bgset = set(D.backgrounds(16, item["k"]))
